@@ -24,4 +24,6 @@ CASES = [
          old="            return self.schedule(action, state)", new="            return self.schedule(action)")]),
     dict(expect="fire", desc="seed C35-r4/3: timer(d, p) advances its due time from now instead of the previous due time", names="P7-grid", edits=[dict(file="reactivex/observable/timer.py",
          old="                dt = dt + scheduler.to_timedelta(p)\n                if dt <= now:", new="                dt = now + scheduler.to_timedelta(p)\n                if dt <= now:")]),
+    dict(expect="fire", desc="seed C28-r4/3: periodic elapsed time computed as before - after", names="P8-elapsed-sign", edits=[dict(file="reactivex/scheduler/periodicscheduler.py",
+         old="(scheduler.now - now).total_seconds()", new="(now - scheduler.now).total_seconds()")]),
 ]
